@@ -7,16 +7,19 @@ Local Open Scope Z_scope.
 
 Definition is_local_acct (p : pool) (a : N) : Prop := In a (p_locals p).
 
-(** Post-conditions of the two truncations (oracle classes limit-pending / limit-queue): after every
-    reorg run the pool is within GlobalSlots unless every non-local account is within AccountSlots,
-    and within GlobalQueue unless only local accounts still have queued transactions. *)
-Definition open_limits_after_reorg : Prop :=
+(** Post-condition of truncatePending (oracle class limit-pending): after every reorg run the pool is
+    within GlobalSlots unless every non-local account is within AccountSlots.  (The GlobalQueue half
+    is proved: C17_queue_limit_after_reorg_partial.)  Also open: a non-local account's queue is within
+    AccountQueue right after its own promotion run (oracle class limit-account-queue). *)
+Definition open_pending_limit_after_reorg : Prop :=
   forall c p reset dirty, Inv p ->
     let p' := run_reorg c p reset dirty in
-    (Z.of_nat (length (p_pending p')) <= c_gslots (p_cfg p') \/
-     forall a, ~ is_local_acct p' a -> l_len (p_pending p') a <= c_aslots (p_cfg p')) /\
-    (Z.of_nat (length (p_queue p')) <= c_gqueue (p_cfg p') \/
-     forall t, In t (p_queue p') -> is_local_acct p' (sender t)).
+    Z.of_nat (length (p_pending p')) <= c_gslots (p_cfg p') \/
+    forall a, ~ is_local_acct p' a -> l_len (p_pending p') a <= c_aslots (p_cfg p').
+
+Definition open_account_queue_cap : Prop :=
+  forall p a, Inv p -> ~ is_local_acct p a ->
+    l_len (p_queue (promote_account p a)) a <= c_aqueue (p_cfg p).
 
 (** Locals are exempt from price eviction (oracle classes local-flag / local-evicted /
     setprice-dropped): every transaction of a local account is flagged local in the index, and the
